@@ -175,6 +175,41 @@ def split_args(text):
     return out
 
 
+def tail_to_acc(inner, wrapper):
+    """the closure's final expression `Ok(E)` (wrapper="Ok") or `(..)` (wrapper=None) -> `__acc = E;`"""
+    t = inner.rstrip()
+    m = mask(t)
+    if not m.endswith(")"):
+        return inner, 0
+    # matching open parenthesis of the last ')'
+    depth = 0
+    k = len(m) - 1
+    while k >= 0:
+        if m[k] in ")]}":
+            depth += 1
+        elif m[k] in "([{":
+            depth -= 1
+            if depth == 0:
+                break
+        k -= 1
+    if k < 0:
+        return inner, 0
+    if wrapper:
+        pre = re.search(r"(?<![\w:])%s\s*$" % wrapper, m[:k])
+        if not pre:
+            return inner, 0
+        expr = t[k + 1:len(t) - 1].strip()
+        start = pre.start()
+    else:
+        expr = t[k:]
+        start = k
+    # must be a statement position: preceded by ';', '}' or start
+    before = m[:start].rstrip()
+    if before and before[-1] not in ";}{":
+        return inner, 0
+    return t[:start] + "__acc = %s;" % expr, 1
+
+
 FOLD_HEAD = re.compile(
     r"(?:\((?P<lo>\w+)\.\.(?P<hi>\w+)\)|(?P<recv>[A-Za-z_][\w\.]*(?:\(\))?)\s*\.iter\(\)(?P<en>\s*\.enumerate\(\))?)\s*\.(?P<m>try_fold|fold)\(")
 
@@ -223,12 +258,12 @@ def rule_r16(body, hits, acctype=None):
             inner = cbody[1:match_close(mask(cbody), 0)].rstrip()
             if is_try:
                 inner, _ = re.subn(r"return\s+Ok\((.*?)\)\s*;", r"{ __acc = \1; continue; }", inner, flags=re.S)
-                inner, n2 = re.subn(r"Ok\(\s*(\([^()]*\))\s*\)\s*$", r"__acc = \1;", inner, flags=re.S)
+                inner, n2 = tail_to_acc(inner, "Ok")
             else:
                 inner, _ = re.subn(r"return\s+(\([^()]*\))\s*([;,])", r"{ __acc = \1; continue; }\2", inner, flags=re.S)
                 if re.search(r"\breturn\b", mask(inner)):
                     raise AnchorLost("R16: closure-level return not in the expected shape")
-                inner, n2 = re.subn(r"(\([^()]*\))\s*$", r"__acc = \1;", inner, flags=re.S)
+                inner, n2 = tail_to_acc(inner, None)
             if n2 != 1:
                 raise AnchorLost("R16: closure does not end in a tuple result")
         else:
@@ -616,7 +651,7 @@ class Extractor:
                 else:
                     pos = match_close(mask(body), ob)
                 edits.append((pos, pos, " " + val.strip() + " "))
-            elif key.startswith(("loopstart ", "loopend ", "beforeloop ")):
+            elif key.startswith(("loopstart ", "loopend ", "beforeloop ", "afterloop ")):
                 # structural anchors (robust against edits of the statements inside the loop)
                 if wl is None:
                     wl = loops(body, ("while", "loop"))
@@ -628,6 +663,8 @@ class Extractor:
                     raise TemplateError("inserted text must be spec-only: " + val[:40])
                 ks, ob = wl[n]
                 pos = ks if kind == "beforeloop" else (ob + 1 if kind == "loopstart" else match_close(mask(body), ob))
+                if kind == "afterloop":
+                    pos += 1
                 edits.append((pos, pos, " " + val.strip() + " "))
             elif key.startswith("loop "):
                 if wl is None:
@@ -795,7 +832,7 @@ class Extractor:
                     d2 = s2[3:]
                     if d2.strip() == "end":
                         break
-                    mk = re.match(r"\s{0,3}((?:closure|forloop|opaquefor|beforefor|forstart|forend|loopstart|loopend|beforeloop|loop)\s+\d+|before\s+\"[^\"]*\"|after\s+\"[^\"]*\"|opaque\s+\"[^\"]*\"|\w+):(.*)$", d2)
+                    mk = re.match(r"\s{0,3}((?:closure|forloop|opaquefor|beforefor|forstart|forend|loopstart|loopend|beforeloop|afterloop|loop)\s+\d+|before\s+\"[^\"]*\"|after\s+\"[^\"]*\"|opaque\s+\"[^\"]*\"|\w+):(.*)$", d2)
                     if mk and not d2.startswith("     "):
                         opts.append([mk.group(1), mk.group(2)])
                     else:
